@@ -65,6 +65,27 @@ def same(got, want):
     return got == want and not isinstance(got, bool)
 
 
+_DRESS = {"k": 0}
+
+
+def dress(mod, k=None):
+    """Circumstances that have nothing to do with a controller's domain: the module may carry any
+    name (also one that means something to a string template) and may sit in a project.
+    k selects the circumstances (a function of the case, so that a replay dresses alike)."""
+    from rv.api import Project
+
+    if k is None:
+        k = _DRESS["k"] = _DRESS["k"] + 1
+    if k % 3 == 0:
+        mod.name = vs.TRICKY_TEXTS[(k // 3) % len(vs.TRICKY_TEXTS)]
+    if k % 4 == 0:
+        p = Project()
+        for _ in range(k % 3):
+            p.attach_module(None)
+        p.attach_module(mod)
+    return mod
+
+
 def set_flag(strict):
     """Strict is the library's default mode and is *not* forced by the check (so that a mode
     left behind by earlier use of the library shows); lenient is entered explicitly and the
@@ -113,6 +134,7 @@ def enum_type(ctx, tname):
             err = None
             if path == "setattr":
                 mod = cls()
+                dress(mod, __import__("zlib").crc32(key.encode()) % 600)
                 if unit is not None:
                     setattr(mod, c.depends_on, getattr(cls.controllers[c.depends_on].value_type, unit))
                 if prev is not None:
@@ -268,7 +290,7 @@ def history(draw):
                 steps.append([c.name, "enum_badvalue", bad])
         else:
             steps.append([c.name, "bool", draw(st.booleans())])
-    return {"type": tname, "steps": steps}
+    return {"type": tname, "steps": steps, "dress": draw(st.integers(0, 600))}
 
 
 def run_history(ctx, h):
@@ -277,7 +299,7 @@ def run_history(ctx, h):
     spec = specmodel.load()
     mt = spec[h["type"]]
     cls = classes()[mt.mtype]
-    mod = cls()
+    mod = dress(cls(), h.get("dress", 1))
     model = {}
     for c in mt.controllers:
         if c.kind == "dependent":
